@@ -135,5 +135,63 @@ def round3 (zcfg : Zk.Cfg) (vcfg : Vss.VerifyCfg) (noMod noFac : Bool) (threshol
   let verdicts ← peers.mapM (checkPeer C H zcfg vcfg noMod noFac threshold ownId ssid ownNTilde ownH1 ownH2)
   .ok ((peers.zip verdicts).filterMap fun (p, v) => v.map fun _ => p.idx)
 
+/-! ### ECDSA resharing round 4, first part (`ecdsa/resharing/round_4_new_step_2.go`): what a new member checks about
+the Paillier / ring-Pedersen parameters the other new members announced in `DGRound2Message1`. Unlike key generation
+there is no size check; the Paillier-Blum modulus proof is verified here. -/
+
+/-- `DGRound2Message1` of new member `idx` as stored by the receiving new member (its own message included) -/
+structure RsR2Msg where
+  idx : Nat
+  paillierN : Nat
+  nTilde : Nat
+  h1 : Nat
+  h2 : Nat
+  dln1 : List Bytes
+  dln2 : List Bytes
+  modProof : List Bytes
+deriving Repr, DecidableEq
+
+def structuralRs (own : Nat) (seen : List (Nat × Nat)) (m : RsR2Msg) : Option (String × List Nat) :=
+  if m.h1 == m.h2 then some ("h1j and h2j were equal for this party", [m.idx]) else
+  match seen.lookup m.h1 with
+  | some k => some ("this h1j was already used by another party", duplicateCulprits own m.idx k)
+  | none =>
+    match seen.lookup m.h2 with
+    | some k => some ("this h2j was already used by another party", duplicateCulprits own m.idx k)
+    | none => none
+
+def scanRs (own : Nat) : List (Nat × Nat) → List RsR2Msg → List RsR2Msg × Option (String × List Nat)
+  | _, [] => ([], none)
+  | seen, m :: rest =>
+    match structuralRs own seen m with
+    | some f => ([], some f)
+    | none =>
+      let (sp, f) := scanRs own ((m.h1, m.idx) :: (m.h2, m.idx) :: seen) rest
+      (m :: sp, f)
+
+/-- the modulus-proof job: `true` = no culprit. A proof that does not decode is tolerated only with `noMod`. -/
+def modJob (zcfg : Zk.Cfg) (noMod : Bool) (ssid : Bytes) (m : RsR2Msg) : Outcome Bool :=
+  match modFromBytes m.modProof with
+  | none => .ok noMod
+  | some (w, xs, a, b, zs) =>
+    modVerify zcfg H (Blame.contextJ ssid m.idx) w (xs.map Int.ofNat) a b (zs.map Int.ofNat) m.paillierN
+
+/-- the parameter checks of resharing round 4 up to the culprit decision: structural failure first; otherwise the
+first failing modulus proof, else the first failing first DLN proof, else the first failing second DLN proof -/
+def rsRound4Params (zcfg : Zk.Cfg) (pcfg : ParseCfg) (noMod : Bool) (own : Nat) (ssid : Bytes) (msgs : List RsR2Msg) :
+    Outcome Verdict := do
+  let (spawned, failure) := scanRs own [] msgs
+  let vm ← spawned.mapM fun m => modJob H zcfg noMod ssid m
+  let v1 ← spawned.mapM fun m => dlnCheck H pcfg m.dln1 m.h1 m.h2 m.nTilde
+  let v2 ← spawned.mapM fun m => dlnCheck H pcfg m.dln2 m.h2 m.h1 m.nTilde
+  match failure with
+  | some (why, cs) => .ok (.fail why cs)
+  | none =>
+    let bad := ((spawned.zip vm).filter (fun p => !p.2) ++ (spawned.zip v1).filter (fun p => !p.2) ++
+      (spawned.zip v2).filter (fun p => !p.2)).map (·.1.idx)
+    match bad with
+    | [] => .ok .pass
+    | j :: _ => .ok (.fail "dln proof verification failed" [j])
+
 end BlameEc
 end TssVerif
